@@ -102,7 +102,7 @@ def gen_txns(r, cfg, targets, force_desc_time=None):
     if txns and k < 0.12:
         txns[-1]["commit"]["missing"] = True
         note = "last commit missing"
-    elif txns and k < 0.22 and cfg.csum:
+    elif txns and k < 0.22 and (cfg.csum or cfg.v1):
         txns[-1]["commit"]["bad_csum"] = True
         note = "last commit csum bad"
     elif txns and k < 0.30 and cfg.csum:
@@ -151,8 +151,8 @@ def prepare(jimg, cfg_incompat, seq0, start_rel, txns, out_path):
         jsb = bytearray(jimg.jsb)
         struct.pack_into(">II", jsb, 0x18, seq0 & 0xFFFFFFFF, cfg.first + start_rel)
         compat, incompat, ro = struct.unpack_from(">III", jsb, 0x24)
-        incompat = (incompat & ~(INCOMPAT_64BIT | INCOMPAT_CSUM2 | INCOMPAT_CSUM3 | INCOMPAT_ASYNC)) | cfg_incompat | INCOMPAT_REVOKE
-        struct.pack_into(">III", jsb, 0x24, compat & ~COMPAT_CHECKSUM, incompat, ro)
+        incompat = (incompat & ~(INCOMPAT_64BIT | INCOMPAT_CSUM2 | INCOMPAT_CSUM3 | INCOMPAT_ASYNC)) | cfg.incompat | INCOMPAT_REVOKE
+        struct.pack_into(">III", jsb, 0x24, (compat | COMPAT_CHECKSUM) if cfg.v1 else (compat & ~COMPAT_CHECKSUM), incompat, ro)
         jsb[0x50] = 4 if cfg.csum else 0
         struct.pack_into(">I", jsb, 0xFC, 0)
         if cfg.csum:
@@ -201,11 +201,11 @@ def one_case(src, mexe, idx, seed, tier):
     r = e2v.rng(seed, "c03", idx)
     name, opts, size = r.choice(BASES)
     jimg = JImage(base_image(src, name, opts, size))
-    mode = r.choice(["none", "v3", "v3", "v2"])
+    mode = r.choice(["none", "v3", "v3", "v2", "v1"])
     force = [-1, 0, 1][idx % 3] if idx < 9 else None        # directed boundary cases run first
     if force is not None:
         mode = ["v3", "v2"][idx % 2]
-    inc = {"none": 0, "v2": INCOMPAT_CSUM2, "v3": INCOMPAT_CSUM3}[mode]
+    inc = {"none": 0, "v2": INCOMPAT_CSUM2, "v3": INCOMPAT_CSUM3, "v1": V1_CHECKSUM}[mode]
     if r.random() < 0.5:
         inc |= INCOMPAT_64BIT
     jlen = jimg.maxlen - jimg.first
@@ -215,6 +215,21 @@ def one_case(src, mexe, idx, seed, tier):
     targets = jimg.free_blocks(r.randint(2, 9), r)
     tmp_cfg = Cfg(jimg.bs, jimg.first, jimg.maxlen, jimg.uuid, inc, seq0, start_rel)
     txns, note = gen_txns(r, tmp_cfg, targets, force)
+    # half of the logs that have one: the end of the log area falls between the data blocks of one descriptor
+    # (every pass, and the v1 checksum accumulation, has to wrap its position per block, not per descriptor)
+    straddle = []
+    off = 0
+    for x in txns:
+        for k2, p2 in x["items"]:
+            if k2 == "D" and len(p2) >= 2:
+                straddle.append((off, len(p2)))
+            off += 1 + (len(p2) if k2 == "D" else 0)
+        off += 0 if x["commit"].get("missing") else 1
+    if straddle and (r.random() < 0.5 or mode == "v1"):
+        d_off, ntag = r.choice(straddle)
+        start_rel = (jlen - (d_off + 1 + r.randint(1, ntag - 1))) % jlen
+        tmp_cfg = Cfg(jimg.bs, jimg.first, jimg.maxlen, jimg.uuid, inc, seq0, start_rel)
+        note += " in txn; data blocks of one descriptor straddle the log end"
     recipe = {"base": name, "mke2fs": opts, "journal": {"csum": mode, "64bit": bool(inc & INCOMPAT_64BIT), "start_rel": start_rel, "len": jlen, "seq0": seq0},
               "note": note, "txns": [{"seq": x["seq"], "items": [(k2, [t["blk"] for t in p] if k2 == "D" else p) for k2, p in x["items"]],
                                       "commit": x.get("commit")} for x in txns]}
@@ -266,7 +281,7 @@ def one_case(src, mexe, idx, seed, tier):
         if da[blk * fs.bs:(blk + 1) * fs.bs] != db0[blk * fs.bs:(blk + 1) * fs.bs]:
             problems.append("e2fsck changed fs block %d that no committed transaction logs" % blk)
             break
-    stat = {"mode": mode, "ntx": len(txns), "note": note.split(" in txn")[0].split(" of txn")[0].split(" with seq")[0], "verdict": verdict[0],
+    stat = {"mode": mode, "straddle": "straddle the log end" in note, "ntx": len(txns), "note": note.split(" in txn")[0].split(" of txn")[0].split(" with seq")[0], "verdict": verdict[0],
             "wrap": start_rel + sum(1 + (len(p) if k2 == "D" else 0) for x in txns for k2, p in x["items"]) + len(txns) > jlen}
     return recipe, problems, stat, (rca, rcb)
 
@@ -279,11 +294,11 @@ def run(res, replay=None):
     res.add_proof(pr)
     mexe = e2v.build_driver("jbd2", ["theories/Jbd2/Jbd2Model.vo"], ["jbd2_model"])
     res.cov["trusted_base"] = e2v.TRUSTED_COMMON + [
-        "lib/jbd2enc.py: the check's independent JBD2 log writer (tag formats, escapes, checksums v2/v3); it also produces the parsed view of each log block handed to the model",
+        "lib/jbd2enc.py: the check's independent JBD2 log writer (tag formats, escapes, checksums v1/v2/v3); it also produces the parsed view of each log block handed to the model",
         "the byte-level decoding done by recovery.c (count_tags, tag walk, checksum verification) is exercised by correspondence, not modelled",
         "tid identifiers within one log span less than 2^31 (hypothesis of the tid theorems)",
     ]
-    res.cov["partial"] = ["fast-commit replay, jbd2 v1 (crc32_be) transaction checksums, async-commit logs and external journals are not generated",
+    res.cov["partial"] = ["fast-commit replay, async-commit logs and external journals are not generated",
                           "PASS_SCAN of the pinned code does not terminate on a cyclic all-descriptor log (C06 finding); the model uses fuel and the theorem excludes the out-of-fuel case"]
     n = 60 if tier == "quick" else 3000
     if replay:
@@ -311,7 +326,7 @@ def run(res, replay=None):
     res.cov["oracle"] = {"evaluations": len(idxs) * 2, "failures": len(bad),
                          "statement": "blocks equal the last committed unrevoked logged image; nothing from uncommitted / mis-sequenced / checksum-invalid transactions is applied; journal empty afterwards; both front ends agree"}
     res.cov["rule"] = ("seeded random logs written by an independent encoder into the internal journal of prepared images: 0..12 transactions, repeated blocks, revokes before/after/at the same tid, escaped blocks, "
-                       "tids near 2^31/2^32, log wrap, tag formats none/v2/v3 x 32/64 bit, damaged suffixes (missing/bad commit, bad descriptor csum with older/newer commit time, bad data tag csum, stale transaction); non-trivial = at least one transaction")
+                       "tids near 2^31/2^32, log wrap, tag formats none/v1/v2/v3 x 32/64 bit, descriptors whose data blocks straddle the log end, damaged suffixes (missing/bad commit, bad descriptor csum with older/newer commit time, bad data tag csum, stale transaction); non-trivial = at least one transaction")
     res.add_obligation("model = e2fsck = debugfs on all generated journals", not bad)
     for i, recipe, problems, rcs in bad[:3]:
         res.violation("oracle", {"case_index": i, "recipe": recipe, "problems": problems[:6], "exit_codes": rcs},
